@@ -36,7 +36,7 @@ def main():
         title = re.sub(r"^Seed(ed change)? [AB]\s*(\([^)]*\))?\s*[-:—]*\s*", "", title)
         files = re.findall(r"^diff --git a/(\S+)", open(os.path.join(HERE, "seeded", sid, "patch.diff")).read(), re.M)
         cb = m.get("caught_by") or {}
-        got = "; ".join(f"{p}: " + ", ".join("`" + k[:70] + "`" for k in v["keys"][:2]) for p, v in cb.items() if v.get("keys")) if isinstance(cb, dict) else str(cb)
+        got = "; ".join(f"{p}: " + ", ".join("`" + k[:70].replace("|", "/") + "`" for k in v["keys"][:2]) for p, v in cb.items() if v.get("keys")) if isinstance(cb, dict) else str(cb)
         print(f"| {sid} | {', '.join(files)} | {title or m.get('needs_to_manifest', '')[:100]} | {got or '**missed**'} |")
 
 
